@@ -196,6 +196,22 @@ Definition df_reindex (tr : tree) (h : how) (m : method) : tree :=
   let tg := match h with HX x => TgIdx x | _ => df_index (flatten tr) h end in
   tmap (reindex_obj tg m) tr.
 
+(* _df_reindex raises ValueError when a numpy array with more than one row meets a pandas index of another length
+   (arrays mixed with timeseries); None below is that ValueError *)
+Definition arr_rows (o : obj) : option nat :=
+  match o with OA a => Some (length a) | OA2 _ r => Some (length r) | _ => None end.
+Definition arr_clash (tg : target) (os : list obj) : bool :=
+  match tg with
+  | TgIdx i => existsb (fun o => match arr_rows o with
+                                 | Some n => negb (Nat.eqb n (length i)) && Nat.ltb 1 n
+                                 | None => false end) os
+  | _ => false
+  end.
+Definition reindex_target (tr : tree) (h : how) : target :=
+  match h with HX x => TgIdx x | _ => df_index (flatten tr) h end.
+Definition df_reindex_checked (tr : tree) (h : how) (m : method) : option tree :=
+  if arr_clash (reindex_target tr h) (flatten tr) then None else Some (df_reindex tr h m).
+
 (* ---------------- columns *)
 Definition row_get (c : list Z) (row : list cell) (x : Z) : cell :=
   match find (fun p => fst p =? x) (combine c row) with Some p => snd p | None => None end.
@@ -226,6 +242,12 @@ Definition df_sync (tr : tree) (h : how) (m : method) (ch : option how) : tree :
                   | Some C => tmap (recolumn_obj C) tr'
                   end
       end
+  end.
+
+Definition df_sync_checked (tr : tree) (h : how) (m : method) (ch : option how) : option tree :=
+  match tr with
+  | Leaf _ => Some tr
+  | _ => if arr_clash (df_index (flatten tr) h) (flatten tr) then None else Some (df_sync tr h m ch)
   end.
 
 (* ---------------- presync: what the decorated function is called with *)
